@@ -38,6 +38,7 @@ def interpolate_dataset_grid(
             coordinate_value,
             _data_set,   # type: ignore
             coordinate_name,
+            periodic_data=periodic_data,
             nearest_neighbour=nearest_neighbour,
         )
     return return_data_set
